@@ -174,8 +174,14 @@ func (o *opctx) keepPoints(site, key string, pred func([]float64) bool, out *ref
 }
 
 func (o *opctx) checkFilter(ar int, key string) {
-	site := fmt.Sprintf("meshops.FilterFloat%d", ar)
 	pred, pname := o.genPredicate(key)
+	o.runFilter(ar, key, pred, pname)
+}
+
+// runFilter runs FilterFloat<ar> on attribute key with the given predicate and
+// compares with the reference (exactly the satisfying points, in order).
+func (o *opctx) runFilter(ar int, key string, pred func([]float64) bool, pname string) {
+	site := fmt.Sprintf("meshops.FilterFloat%d", ar)
 	o.param("filter%d(%s,%s)", ar, key[2:], pname)
 	o.res.SetAdd("filter.predicates", pname)
 	name := key[2:]
@@ -218,7 +224,6 @@ func (o *opctx) checkFilter(ar int, key string) {
 // multiples of 1/8 so that the bounds are exact in any arithmetic; value class
 // "smallint" puts points exactly on the faces of the box.
 func (o *opctx) checkCrop(key string) {
-	const site = "meshops.CropFloat3Attribute"
 	data := o.in.Data[key]
 	q := func(x float64) float64 { return math.Round(x*8) / 8 }
 	var ctr, size [3]float64
@@ -254,6 +259,12 @@ func (o *opctx) checkCrop(key string) {
 			ctr[i], size[i] = q(c), q(spread*o.r.Float64()*1.5)+0.25
 		}
 	}
+	o.runCrop(key, ctr, size, class)
+}
+
+// runCrop crops attribute key with the closed box [ctr-size/2, ctr+size/2].
+func (o *opctx) runCrop(key string, ctr, size [3]float64, class string) {
+	const site = "meshops.CropFloat3Attribute"
 	lo := [3]float64{ctr[0] - size[0]/2, ctr[1] - size[1]/2, ctr[2] - size[2]/2}
 	hi := [3]float64{ctr[0] + size[0]/2, ctr[1] + size[1]/2, ctr[2] + size[2]/2}
 	pred := func(t []float64) bool {
